@@ -193,12 +193,12 @@ def regrow(ctx, st):
     return 2
 
 
-def targeted_search(ctx):
-    """failing-input search used when an obligation or the correspondence has broken: molecules on an inversion centre of strongly oblique
+def targeted_search(ctx, tries=300):
+    """contacts close to the bonding limit (a short run on every check, the full search when something has broken): failing-input search used when an obligation or the correspondence has broken: molecules on an inversion centre of strongly oblique
     triclinic cells with very unequal axes, whose bond across the centre is close to the bonding limit (where an error in the metric decides)"""
     rng = ctx.rng
     ev = 0
-    for k in range(300):
+    for k in range(tries):
         while True:
             cell = [round(rng.uniform(5.5, 7.5), 3), round(rng.uniform(15, 19), 3), round(rng.uniform(10, 13), 3),
                     round(rng.choice([rng.uniform(108, 121), rng.uniform(59, 72)]), 2), round(rng.uniform(80, 100), 2), round(rng.uniform(80, 100), 2)]
@@ -210,7 +210,7 @@ def targeted_search(ctx):
         Mi = gs.inv3(M)
         el = rng.choice(['C', 'N', 'O', 'O'])
         lim = 1.2 * 2 * gs.radius(el)
-        r = rng.uniform(0.9, 0.999) * lim
+        r = rng.uniform(0.9, 0.999) * lim if k % 2 else rng.uniform(0.97, 0.9995) * lim
         v = [rng.gauss(0, 0.3), rng.gauss(0, 1), rng.gauss(0, 1)]
         ln = math.sqrt(sum(x * x for x in v))
         half = gs.mv(Mi, [x / ln * r / 2 for x in v])
@@ -322,6 +322,8 @@ def run(ctx):
                         ctx.broken.append('correspondence Model/Sdm.v (float instance) differs from SDM: %s, structure %s' % (what, st['name']))
     if ctx.broken and not any(v['class'] is None for v in ctx.violations):
         ev += targeted_search(ctx)
+    elif not any(v['class'] is None for v in ctx.violations):
+        ev += targeted_search(ctx, 60)
     ctx.cov['evaluations'] = ev
     ctx.cov['distinct_nontrivial'] = ev
     ctx.cov['rule'] = ('random structures as in C13 (clusters on / near inversion centres and axes, PARTs, hydrogens, Q-peaks, with_qpeaks on 20%); '
